@@ -91,6 +91,8 @@ def plain_iter_of(it):
     """X if `it` iterates X in order without skipping / reversing / filtering"""
     import effects as fx
     it = fx.base_iter(it)
+    if it[0] in ("param", "field", "payload"):
+        return it   # `for x in collection` (IntoIterator of a slice / &Vec): in order, nothing skipped
     if it[0] == "call" and it[1].rsplit("::", 1)[-1] in ("iter", "into_iter") and it[3]:
         x = fx.base_iter(it[3][0])
         if x[0] == "call" and x[1].rsplit("::", 1)[-1] in ("iter", "into_iter"):
@@ -201,7 +203,7 @@ def rule_name_routing(F, ev_unused, R, config, rule="R-NAME-ROUTING"):
     for b in F.bodies.values():
         for bi, t in b.calls():
             if "fn" in t and t["fn"].get("key") == w.key:
-                users.add(b.name)
+                users.add(F.bodies.get(b.j.get("root", b.key), b).name or "?")
     ok = {"new", "partial_deriv"} <= users
     R.add(rule, config, w.key, "same-wrapper-for-functions-and-derivatives", ok, "" if ok else "wrapper used by %s" % sorted(users), w.j["span"])
     R.floor(rule, config, 5, "mapping args, mapping helper, push, eval call, shared wrapper")
@@ -235,7 +237,14 @@ def rule_deriv_key(F, ev, R, config, rule="R-DERIV-KEY"):
         k2 = logic.canon_index(fx_norm(key))
         while k2[0] in ("payload",):
             k2 = k2[1]
-        if k2[0] == "idx":
+        if k2[0] == "call" and k2[1].rsplit("::", 1)[-1] in ("position",) and k2[3]:
+            # `X.iter().position(p)`: an index into X (an adapter in between would shift positions)
+            X = plain_iter_of(key[1][3][0] if key[0] == "payload" else key[3][0]) if (key[0] == "payload" and key[1][0] == "call") or key[0] == "call" else None
+            if X is not None:
+                space = logic.canon_index(fx_norm(X))
+            else:
+                msg = "the key is a position in `%s`: not a plain iteration over the model parameter list" % short(k2[3][0])[:100]
+        elif k2[0] == "idx":
             space = k2[1]
         elif k2[0] == "field" and k2[2] == "0":
             src = k2[1]
@@ -567,6 +576,28 @@ def strip_copies(t):
             t = t[3][0]
             continue
         return t
+
+
+def fnbuilder_list_roles(F, ev):
+    """(model-names field, function-names field) of the function builder, told apart by use: which one is handed
+    to the wrapper constructor as which argument"""
+    from effects import iteration_effects
+    W = wrapper_fn(F)
+    lists = [f["name"] for f in struct_fields(F, ADT_FNBUILDER) if f["ty"].startswith("std::vec::Vec<std::string::String>")]
+    ev2 = Eval(F, opaque=set(ev.opaque) | {W.key})
+    wcid = strip_generics(W.j["path"])
+    role = {}
+    for b in inherent_methods(F, ADT_FNBUILDER):
+        me = ("param", b.key, 1)
+        for e in iteration_effects(ev2, Env(b)):
+            if e.kind == "call" and e.cid == wcid and len(e.args) >= 2:
+                for idx, a in ((0, e.args[0]), (1, e.args[1])):
+                    x = strip_copies(a)
+                    if x[0] == "field" and x[1] == me and x[2] in lists:
+                        role.setdefault(idx, set()).add(x[2])
+    if set(role) != {0, 1} or any(len(v) != 1 for v in role.values()) or role[0] == role[1]:
+        raise AnchorMissing("function builder name-list roles: %s" % {k: sorted(v) for k, v in role.items()})
+    return next(iter(role[0])), next(iter(role[1]))
 
 
 def rule_declared_order(F, ev, R, config, rule="R-DECLARED-ORDER"):
